@@ -629,6 +629,294 @@ fn judge_e2e(run: &Run, src: &[u8], now: i64, c: &Case) -> CaseResult {
     }
 }
 
+// =====================================================================================================
+// Stateful stream: ONE policy object, a history of operations, every check judged for the CURRENT
+// configuration (history independence of check_certificate_trust).
+// =====================================================================================================
+
+#[derive(Clone, Debug, Serialize, Deserialize, PartialEq, Eq, Hash)]
+struct Step {
+    /// 0 check, 1 clone the policy and check on the clone, 2 set_trust_anchors_only(flag),
+    /// 3 add_user_trust_anchors(sel), 4 add_trust_anchors(sel)
+    op: u8,
+    /// check: 0 = the chain's EE, 1 = a second EE issued by the same CA
+    ee: u8,
+    /// check: supplied chain 0 full, 1 one intermediate missing, 2 intermediates reversed, 3 full + unrelated
+    /// certificate, 4 empty
+    chain: u8,
+    /// check: 0 no signing time, 1 now
+    time: u8,
+    /// add anchors: 0 root, 1 unrelated root, 2 the CA that issued the EEs
+    sel: u8,
+    flag: bool,
+}
+
+#[derive(Clone, Debug, Serialize, Deserialize, PartialEq, Eq, Hash)]
+struct History {
+    /// 2 = EE<-int<-root, 3 = EE<-int<-int<-root
+    depth: u8,
+    ee_key: u8,
+    ca_key: u8,
+    /// initial system anchor: 0 root, 1 none, 2 unrelated root
+    sys0: u8,
+    /// initial user anchor: 0 none, 1 root, 2 unrelated root
+    user0: u8,
+    only0: bool,
+    steps: Vec<Step>,
+}
+
+/// Anchor levels of the model: Some(level) inside the hierarchy, None = unrelated.
+fn sel_level(sel: u8, depth: usize) -> Option<usize> {
+    match sel % 3 {
+        0 => Some(depth),
+        1 => None,
+        _ => Some(1),
+    }
+}
+
+fn selftest_cache() -> bool {
+    std::env::var("VERIF_SELFTEST").map(|v| v == "cache").unwrap_or(false)
+}
+
+fn judge_history(run: &Run, now: i64, h: &History) -> CaseResult {
+    let tag = next_tag("h");
+    let depth = (h.depth as usize).clamp(2, 3);
+    let ee_key = KEYS[h.ee_key as usize % KEYS.len()];
+    let ca_key = KEYS[h.ca_key as usize % KEYS.len()];
+    let built = (|| -> Result<(Chain, Vec<u8>, Vec<u8>), String> {
+        let cs = ChainSpec::simple(depth, ee_key, ca_key, &tag);
+        let chain = pki::make_chain(&cs, now)?;
+        let iss = chain.issuer_at(1, &cs.cas[0])?;
+        let kb = pki::pool_key(ee_key, 310)?;
+        let mut sb = CertSpec::ee(&format!("Second Signer {tag}"));
+        sb.serial_hex = "2002".into();
+        let ee_b = pki::make_cert(&sb, &kb, ee_key, Some(&iss), now)?;
+        let uk = pki::pool_key(ca_key, 300)?;
+        let unrelated = pki::make_cert(&CertSpec::ca(&format!("Unrelated Root {tag}")), &uk, ca_key, None, now)?;
+        Ok((chain, ee_b, unrelated))
+    })();
+    let (chain, ee_b, unrelated) = match built {
+        Ok(x) => x,
+        Err(e) => {
+            run.count("generator_error");
+            run.inconclusive(format!("generator failed for {h:?}: {e}"));
+            return Ok(());
+        }
+    };
+    let anchor_der = |lvl: Option<usize>| -> Vec<u8> {
+        match lvl {
+            Some(l) => chain.all_der[l].clone(),
+            None => unrelated.clone(),
+        }
+    };
+    // ---- model of the configuration
+    let mut sys: Vec<Option<usize>> = vec![];
+    let mut usr: Vec<Option<usize>> = vec![];
+    let mut only = h.only0;
+    let mut pol = CertificateTrustPolicy::default();
+    let add = |pol: &mut CertificateTrustPolicy, user: bool, der: &[u8]| -> CaseResult {
+        let pem = pki::pem_of(der);
+        let r = if user { pol.add_user_trust_anchors(pem.as_bytes()) } else { pol.add_trust_anchors(pem.as_bytes()) };
+        r.map_err(|e| Fail::new("C05:anchor-pem-rejected", e.to_string()))
+    };
+    match h.sys0 % 3 {
+        0 => {
+            sys.push(Some(depth));
+            add(&mut pol, false, &anchor_der(Some(depth)))?;
+        }
+        2 => {
+            sys.push(None);
+            add(&mut pol, false, &anchor_der(None))?;
+        }
+        _ => {}
+    }
+    match h.user0 % 3 {
+        1 => {
+            usr.push(Some(depth));
+            add(&mut pol, true, &anchor_der(Some(depth)))?;
+        }
+        2 => {
+            usr.push(None);
+            add(&mut pol, true, &anchor_der(None))?;
+        }
+        _ => {}
+    }
+    pol.set_trust_anchors_only(only);
+
+    // emulated defect for the self-test: successful validations cached by (EE, time), reset by add_*anchors
+    let mut fake_cache: std::collections::HashSet<(u8, u8)> = std::collections::HashSet::new();
+    let mut earlier_success = false;
+    let mut success_then_fail = false;
+    let mut checks = 0;
+    run.count(&format!("history_len_{}", h.steps.len()));
+    for (i, st) in h.steps.iter().enumerate() {
+        match st.op {
+            2 => {
+                only = st.flag;
+                pol.set_trust_anchors_only(only);
+                run.count("step_set_anchors_only");
+            }
+            3 => {
+                let l = sel_level(st.sel, depth);
+                usr.push(l);
+                add(&mut pol, true, &anchor_der(l))?;
+                fake_cache.clear();
+                run.count("step_add_user_anchor");
+            }
+            4 => {
+                let l = sel_level(st.sel, depth);
+                sys.push(l);
+                add(&mut pol, false, &anchor_der(l))?;
+                fake_cache.clear();
+                run.count("step_add_system_anchor");
+            }
+            _ => {
+                checks += 1;
+                // supplied intermediates: levels 1..depth-1
+                let mut levels: Vec<usize> = (1..depth).collect();
+                let mut extra = false;
+                match st.chain % 5 {
+                    1 => {
+                        let drop = 1 + (st.sel as usize) % (depth - 1);
+                        levels.retain(|l| *l != drop);
+                    }
+                    2 => levels.reverse(),
+                    3 => extra = true,
+                    4 => levels.clear(),
+                    _ => {}
+                }
+                let mut supplied: Vec<Vec<u8>> = levels.iter().map(|l| chain.all_der[*l].clone()).collect();
+                if extra {
+                    supplied.push(unrelated.clone());
+                }
+                let ee_sel = st.ee % 2;
+                let ee_der: &[u8] = if ee_sel == 1 { &ee_b } else { chain.ee_der() };
+                let at = if st.time % 2 == 1 { Some(now) } else { None };
+                // ---- truth for the current configuration
+                let path = |anchors: &[Option<usize>]| anchors.iter().any(|a| match a {
+                    Some(l) => (1..*l).all(|x| levels.contains(&x)),
+                    None => false,
+                });
+                let want: Option<TrustAnchorType> = if path(&sys) {
+                    Some(TrustAnchorType::System)
+                } else if !only && path(&usr) {
+                    Some(TrustAnchorType::User)
+                } else {
+                    None
+                };
+                // ---- SDK: the long-lived policy (or a clone of it), and a fresh policy with the same configuration
+                let got = vh::catch(|| {
+                    if st.op == 1 {
+                        let c = pol.clone();
+                        c.check_certificate_trust(&supplied, ee_der, at)
+                    } else {
+                        pol.check_certificate_trust(&supplied, ee_der, at)
+                    }
+                });
+                let mut got = match got {
+                    Ok(g) => g.ok(),
+                    Err(p) => return Err(Fail::new(format!("C05:panic-{}", vh::core::panic_site(&p)), format!("check_certificate_trust panicked at step {i}: {p}"))),
+                };
+                if selftest_cache() {
+                    let key = (ee_sel, st.time % 2);
+                    if fake_cache.contains(&key) {
+                        got = Some(got.unwrap_or(TrustAnchorType::System));
+                    } else if got.is_some() {
+                        fake_cache.insert(key);
+                    }
+                }
+                let mut fresh = CertificateTrustPolicy::default();
+                for a in &sys {
+                    add(&mut fresh, false, &anchor_der(*a))?;
+                }
+                for a in &usr {
+                    add(&mut fresh, true, &anchor_der(*a))?;
+                }
+                fresh.set_trust_anchors_only(only);
+                let fresh_got = fresh.check_certificate_trust(&supplied, ee_der, at).ok();
+                run.count(if st.op == 1 { "step_clone_check" } else { "step_check" });
+                run.count(&format!("stateful_chain_variant_{}", st.chain % 5));
+                run.count(if want.is_some() { "stateful_truth_trusted" } else { "stateful_truth_untrusted" });
+                if fresh_got.is_some() != want.is_some() {
+                    // the construction and a fresh policy disagree: not a history effect, do not judge here
+                    run.count("stateful_ambiguous_fresh_policy_disagrees");
+                    continue;
+                }
+                if want.is_none() && earlier_success {
+                    success_then_fail = true;
+                }
+                let ctx = || {
+                    format!(
+                        "step {i} of {:?} (system anchors {:?}, user anchors {:?}, anchors_only {only}; levels supplied {:?}); a fresh policy with the same configuration answers {:?}\nEE:\n{}root:\n{}",
+                        h.steps, sys, usr, levels, fresh_got, pki::pem_of(ee_der), chain.root_pem()
+                    )
+                };
+                match (&got, &want) {
+                    (Some(g), None) => {
+                        let sig = if only && *g == TrustAnchorType::User {
+                            "C05:stateful-anchors-only-accepted-user-anchor"
+                        } else if earlier_success {
+                            "C05:stateful-trusted-after-earlier-success"
+                        } else {
+                            "C05:stateful-trusted-without-path"
+                        };
+                        return Err(Fail::new(sig, format!("long-lived policy answers Ok({g:?}) where the current configuration gives no trust path: {}", ctx())));
+                    }
+                    (None, Some(w)) => {
+                        return Err(Fail::new("C05:stateful-untrusted-despite-path", format!("long-lived policy answers Err where {w:?} trust is expected: {}", ctx())));
+                    }
+                    (Some(g), Some(w)) if g != w => {
+                        let sig = if only && *g == TrustAnchorType::User { "C05:stateful-anchors-only-accepted-user-anchor" } else { "C05:stateful-wrong-anchor-type" };
+                        return Err(Fail::new(sig, format!("long-lived policy answers {g:?}, expected {w:?}: {}", ctx())));
+                    }
+                    _ => {}
+                }
+                if want.is_some() {
+                    earlier_success = true;
+                }
+            }
+        }
+    }
+    if checks >= 2 {
+        run.count("history_with_two_checks");
+    }
+    if success_then_fail {
+        run.count("history_success_then_should_fail");
+        run.nontrivial(h);
+    }
+    Ok(())
+}
+
+fn history_strategy() -> impl Strategy<Value = History> + Sync {
+    let step = (0u8..12, 0u8..4, 0u8..5, 0u8..2, 0u8..3, any::<bool>()).prop_map(|(o, ee, chain, time, sel, flag)| Step {
+        // weights: 6 check, 1 clone-check, 2 set_trust_anchors_only, 2 add user anchors, 1 add system anchors
+        op: match o {
+            0..=5 => 0,
+            6 => 1,
+            7 | 8 => 2,
+            9 | 10 => 3,
+            _ => 4,
+        },
+        ee: (ee == 3) as u8,
+        chain,
+        time,
+        sel,
+        flag,
+    });
+    ((0u8..2, 0u8..6, 0u8..6, 0u8..4, 0u8..4, any::<bool>()), proptest::collection::vec(step, 2..=5)).prop_map(
+        |((depth, ee_key, ca_key, sys0, user0, only0), steps)| History {
+            depth: 2 + depth,
+            ee_key,
+            ca_key,
+            // root as system anchor half of the time, root as user anchor otherwise most of the time
+            sys0: [0u8, 1, 0, 2][sys0 as usize],
+            user0: [0u8, 1, 1, 2][user0 as usize],
+            only0: only0 && sys0 % 2 == 0,
+            steps,
+        },
+    )
+}
+
 /// Strategy: `mode` 0..=5 → one-knob deviation from the control (knob = sel % 10), otherwise all knobs free.
 fn strategy(e2e: bool) -> impl Strategy<Value = Case> + Sync {
     (
@@ -705,6 +993,7 @@ fn main() {
     run.set_rule("cases = knob vectors over (hierarchy depth 0-3, EE/CA key type out of 6, EE EKU variant out of 9, policy EKU list out of 4, structural fault out of 8 + level, root supplied or not, system anchor out of 5, user anchor out of 5, anchors-only, allow list out of 6, signing time out of 3, verify_trust); 60% of the draws differ from the trusted control (EE<-root, emailProtection, root as system anchor) in exactly one trust-relevant knob. Non-trivial = distance <= 1 from the control");
     run.assume("truth is by construction; the path component is judged only when `openssl verify -x509_strict -partial_chain` (CLI 3.0.x) agrees with the construction, otherwise the case is counted ambiguous");
     run.assume("EKU acceptance rule as documented: emailProtection/timeStamping/OCSPSigning always, other OIDs only when on the policy list (default list or add_valid_ekus / trust.trust_config); an allow-listed EE is trusted regardless of chain and EKU");
+    run.assume("stateful stream: one CertificateTrustPolicy::default() object per history, configured through add_trust_anchors / add_user_trust_anchors / set_trust_anchors_only, conforming hierarchies of depth 2-3 only (no faulty certificates), every check also compared with a fresh policy carrying the same configuration; a disagreement between construction and the fresh policy is counted ambiguous, not judged");
     run.assume("validity periods are evaluated only when a signing time is supplied (documented on check_certificate_trust); faults sitting on the configured anchor itself are recorded, not judged");
     let _ = std::fs::create_dir_all("/verif/work/C05");
     if let Ok(rd) = std::fs::read_dir("/verif/work/C05") {
@@ -729,5 +1018,6 @@ fn main() {
 
     run.drive_par("direct", run.scale(1_500, 20_000), threads, strategy(false), |c| judge_direct(&run, now, c));
     run.drive_par("e2e", run.scale(200, 2_000), threads, strategy(true), |c| judge_e2e(&run, &src, now, c));
+    run.drive_par("stateful", run.scale(300, 10_000), threads, history_strategy(), |h| judge_history(&run, now, h));
     run.finish();
 }
